@@ -85,3 +85,48 @@ claim("C17",
       "algorithms themselves (spelling, voice assignment, key correlation) are not decided.",
       _NOTE, "ast rules: permutation pairing, return-shape inference vs. unpacking, dispatch lifting, constant-folded table "
              "identities, rank domain", "DESIGN.md §4 C17")
+
+claim("C19",
+      "Static analysis (level other): decides table agreement between the kern/MEI writers and readers (inverse on the "
+      "writers' domain for pitch letters, duration codes, accidentals), the duration-type universe (every type a reader "
+      "can produce is a key of LABEL_DURS), conformance of every library call and narrowed attribute read inside the two "
+      "exporters, and the loader's dispatch by lower-cased extension with a raising else. What a given MEI/kern document "
+      "denotes is not decided.",
+      _NOTE, "constant-folded inverse-table checks, call-signature conformance, isinstance-narrowed attribute existence, "
+             "dispatch lifting", "DESIGN.md §4 C19")
+
+claim("C13",
+      "Static analysis (level other): decides the permutation and plumbing clauses of the piano roll — all four columns "
+      "sliced from the input are co-permuted by the onset sort, the per-note index rows are un-permuted, no in-place "
+      "arithmetic writes through a view of the input, every option reaches the rasteriser under its own name, the "
+      "pitch-class roll forces the full non-binary roll and applies binary after the fold, piano range literals agree "
+      "with the inverse. Cell-exact content is not decided.",
+      _NOTE, "ast rules: co-permutation of parallel arrays, sort/unsort pairing, view/copy provenance, keyword forwarding",
+      "DESIGN.md §3 F9, §4 C13")
+
+claim("C14",
+      "Static analysis (level other): decides the recomputation plumbing of performed parts — the threshold setter "
+      "must-calls the sounding-end computation with the part's notes/controls/new value on every path with notes, the "
+      "constructor installs the threshold through the property after notes and controls, both exits of the computation "
+      "write sound_off for every note, the only threshold comparison is `value > threshold`, controller 64, note_array "
+      "row/dtype arity and from_note_array's field reads, (part index, track) keys in track renumbering. The pedal model "
+      "itself is not decided.",
+      _NOTE, "CFG must-call / dominance rules, comparator normal form, schema agreement", "DESIGN.md §4 C14")
+
+claim("C18",
+      "Static analysis (level other): decides the naming/arity plumbing of the performance codec — scale/rescale/param_names "
+      "agreement for all five tempo normalisations, parameter names written by the encoder vs. read by the decoders, both "
+      "tempo-curve methods dispatched and unpacked with their return width, lexsort key order (onset primary) in table "
+      "and decoder, scalar-only rows in the matched-note table, no int() of rank-1 arrays. decode(encode(x)) = x is not "
+      "decided.",
+      _NOTE, "constant-folded function table vs. the functions' bodies, name-set agreement, return-shape vs. unpacking, "
+             "rank domain", "DESIGN.md §3 F5c, §4 C18")
+
+claim("C08",
+      "Static analysis (level other): decides structural clauses of match export/import — no stale loop variable in the "
+      "exporter's signature loops, both importer signature loops pass the computed bar start, timeline positions round "
+      "like their siblings, controller 64/67 <-> sustain/soft on both sides, clock units/rate written, read, used for "
+      "conversion and handed to the performed part, the four alignment labels agree, the exporter's path is free of "
+      "int() on rank-1 arrays. The reconstructed score's values are not decided.",
+      _NOTE, "ast rules: loop-variable liveness, sibling-block agreement, def-use agreement of clock variables, dispatch "
+             "lifting", "DESIGN.md §4 C08")
